@@ -246,6 +246,7 @@ def _rel_all(pid, contract, ob):
 
 
 PROPS["C04"]["modules"] = PROPS["C04"]["modules"] + ["contracts.queue"]
+PROPS["C03"]["modules"] = PROPS["C03"]["modules"] + ["contracts.grpc_cache"]      # lock discipline of the gRPC client cache
 for _p in ("C01", "C03", "C04", "C20"):
     PROPS[_p]["modules"] = PROPS[_p]["modules"] + ["contracts.journal"]
     PROPS[_p]["relevant"] = _rel_all
@@ -307,10 +308,11 @@ PROPS["C08"] = dict(
           "_add_trial_to_cache has its exact effect (file under the number; unfinished ids stay in the re-fetch set; a finished "
           "trial raises the watermark to at least its id; nothing else changes); _read_trials_from_remote_storage asks for "
           "exactly (re-fetch set, ids above the watermark), files every trial of the reply, forgets the study on NOT_FOUND "
-          "and leaves the cache alone on other RPC errors.",
+          "and leaves the cache alone on other RPC errors; get_all_trials serves, after the fetch, only trials cached under their "
+          "own number whose state is selected, ordered by number; delete_study_cache removes exactly that entry; every access "
+          "to the study table happens under the cache lock (C03).",
     note="the SQL of RDBStorage._get_trials/_create_new_trial/get_trial is assumed to implement the stated contracts; "
-         "for GrpcClientCache the multi-client view argument (evolving backend) is not repeated and get_all_trials is not "
-         "under contract; completeness of the list built by get_all_trials from the "
+         "for GrpcClientCache the multi-client view argument (evolving backend) is not repeated; completeness of the list built by get_all_trials from the "
          "cache (no cached matching trial dropped) is not proved",
     assumptions=LIB_ASSUMPTIONS + [
         "backend contracts (assumed, SQL): _get_trials returns the current snapshots of exactly the trials with id in the "
@@ -318,7 +320,7 @@ PROPS["C08"] = dict(
         "larger than every existing id; get_trial returns the current snapshot",
         "other clients change the backend only by storage-contract transitions (ids grow, finished trials are frozen, "
         "(study, number) unique)", "sorted(): ordered permutation (library contract)"],
-    not_covered=["GrpcClientCache.get_all_trials and the servicer's GetTrials filter", "study deletion by another client (admitted by the class docstring)",
+    not_covered=["the servicer's GetTrials filter", "study deletion by another client (admitted by the class docstring)",
                  "thread interleavings inside one cached client beyond the guard discipline"],
     witnesses={"_CachedStorage.create_new_trial:post/all/2": "witnesses.f2"},
 )
